@@ -85,6 +85,9 @@ var curatedFENs = []string{
 	"2kr3r/pppq1ppp/2npbn2/2b1p3/2B1P3/2NPBN2/PPPQ1PPP/R3K2R w KQ - 5 9",
 	"6k1/8/2p5/3pP3/4K3/8/2n5/3r1r2 w - d6 0 2", // in check by the pawn that just jumped: e.p. is the only legal move
 	"5bk1/8/p7/Pp6/K7/7r/8/8 w - b6 0 2",
+	"7k/8/8/KpP4r/8/8/8/8 w - b6 0 2", // the e.p. capture would clear the rank between king and rook: illegal
+	"8/8/8/8/kPp4R/8/8/7K b - b3 0 2",
+	"7k/8/8/K1pP3q/8/8/8/8 w - c6 0 2",
 	"4k2r/6K1/8/8/8/8/1r6/8 w k - 0 1", // a king may take a home rook that still has its right
 	"8/8/8/8/8/8/6k1/4K2R b K - 0 1",
 	"r3k3/1K6/8/8/8/8/8/8 w q - 0 1",
